@@ -1335,3 +1335,35 @@ Proof.
     + intros (loc' & a' & h & ek & X & Y & A & B & C & D). inversion X; subst loc'. unfold arch_at in Y. rewrite Ha in Y. inversion Y; subst a'. exists h, ek. split; [exact A|]. split; [exact B|]. split; [exact C|exact D].
   - exact (L2 (qi_idx it)).
 Qed.
+
+(* C15: whatever a delivery runs is a live handler; a removed handler is in no list *)
+Corollary delivered_handlers_are_live w it hk : HL w -> In hk (delivered_to w it) -> exists h, hlive w hk h.
+Proof.
+  intros H Hin. apply (proj2 (delivered_to_exact w it H)) in Hin. destruct (qi_targeted it).
+  - destruct Hin as (_ & _ & h & _ & _ & _ & X & _). eauto.
+  - destruct Hin as (h & _ & X & _). eauto.
+Qed.
+
+(* deliver_one runs exactly [delivered_to] (when the registry look-ups succeed) *)
+Lemma deliver_one_uses_delivered_to beh it w :
+  (if qi_targeted it then get_by_index (w_tev w) (qi_idx it) <> None /\ sm_get (qi_target it) (w_ents w) <> None /\
+                          (forall loc, sm_get (qi_target it) (w_ents w) = Some loc -> slab_get (w_archs w) (fst loc) <> None)
+   else get_by_index (w_gev w) (qi_idx it) <> None /\ nget (w_glists w) (qi_idx it) <> None) ->
+  exists tag kind loc, deliver_one beh it w =
+    (let '(w1, ev, sent, taken, fl) := run_handlers beh (delivered_to w it) w it tag loc [] in
+       match fl with
+       | Some f => (sent, (if taken then w1 else ev_drop w1 (qi_targeted it) tag ev), Some f)
+       | None => if taken then (sent, w1, None) else
+           match kind with
+           | KNormal => (sent, ev_drop w1 (qi_targeted it) tag ev, None)
+           | _ => let '(w3, f) := fail_of (builtin_effect kind ev loc w1) in (sent, w3, f)
+           end
+       end).
+Proof.
+  unfold deliver_one, delivered_to, glist_of, listeners_of. destruct (qi_targeted it).
+  - intros (A & B & C). destruct (get_by_index (w_tev w) (qi_idx it)) as [[k info]|]; [|congruence].
+    destruct (sm_get (qi_target it) (w_ents w)) as [loc|]; [|congruence]. specialize (C loc eq_refl).
+    destruct (slab_get (w_archs w) (fst loc)) as [a|]; [|congruence]. exists (e_tag info), (e_kind info), loc. reflexivity.
+  - intros (A & B). destruct (get_by_index (w_gev w) (qi_idx it)) as [[k info]|]; [|congruence].
+    destruct (nget (w_glists w) (qi_idx it)) as [l|]; [|congruence]. exists (e_tag info), (e_kind info), (U32MAX, U32MAX). reflexivity.
+Qed.
